@@ -319,6 +319,63 @@ def short(path):
     return "::".join(parts[-2:])
 
 
+def _fold_positional(src, names):
+    """format!("{}_outline_{}", prefix, i) with prefix = "forward" reads format!("forward_outline_{}", i): a positional argument that is a
+    parameter bound to a string literal at this call site is written into the template"""
+    import re as _re
+    m = _re.match(r'^(\s*[A-Za-z_][A-Za-z0-9_:]*!\s*\()(.*)\)\s*$', src, _re.S)
+    if not m:
+        return src
+    head, inner = m.group(1), m.group(2)
+    # split the macro arguments at top-level commas
+    parts, cur, depth, in_str, esc = [], [], 0, False, False
+    for ch in inner:
+        if in_str:
+            cur.append(ch)
+            if esc:
+                esc = False
+            elif ch == "\\":
+                esc = True
+            elif ch == '"':
+                in_str = False
+            continue
+        if ch == '"':
+            in_str = True
+        elif ch in "([{":
+            depth += 1
+        elif ch in ")]}":
+            depth -= 1
+        if ch == "," and depth == 0:
+            parts.append("".join(cur))
+            cur = []
+        else:
+            cur.append(ch)
+    if "".join(cur).strip():
+        parts.append("".join(cur))
+    ti = next((i for i, p_ in enumerate(parts) if p_.strip().startswith('"')), None)
+    if ti is None:
+        return src
+    tpl, args = parts[ti], parts[ti + 1:]
+    if not any(a.strip() in names for a in args):
+        return src
+    pieces = _re.split(r"(\{\{|\}\}|\{[^{}]*\})", tpl)
+    k, out, keep = 0, [], []
+    for pc in pieces:
+        if pc.startswith("{") and pc.endswith("}") and pc not in ("{{", "}}") and (pc[1:-1] == "" or pc[1:-1].startswith(":")):
+            a = args[k] if k < len(args) else None
+            if a is not None and a.strip() in names and pc == "{}":
+                out.append(names[a.strip()].replace("{", "{{").replace("}", "}}"))
+            else:
+                out.append(pc)
+                if a is not None:
+                    keep.append(a)
+            k += 1
+        else:
+            out.append(pc)
+    keep += args[k:]
+    return head + ",".join(parts[:ti] + ["".join(out)] + keep) + ")"
+
+
 class Facts:
     def __init__(self, outdir, h):
         self.dir = outdir
@@ -484,6 +541,7 @@ class Facts:
                                 if isinstance(m.get("mac_src"), str) and "{" in m["mac_src"]:
                                     for nm_, txt in names.items():
                                         m["mac_src"] = _re.sub(r"(?<!\{)\{%s\}(?!\})" % _re.escape(nm_), txt.replace("{", "{{").replace("}", "}}").replace("\\", "\\\\"), m["mac_src"])
+                                    m["mac_src"] = _fold_positional(m["mac_src"], names)
                         if lits:
                             for m in list(walk(cp)):
                                 r_ = m.get("res")
